@@ -121,6 +121,8 @@ def evaluate(case, obs):
            for lg in case["logs"] for b in lg["batches"]):
         out.label("compaction_gaps")
     out.label("mode_" + case["cfg"].get("mode", "assign"))
+    if getattr(obs, "deser_failures", None):
+        out.label("deserializer_raised_once_for_a_record")
     out.info = {"delivered": {k: len(v) for k, v in delivered.items()}, "events": len(obs.events),
                 "fetches": sum(1 for a in c.arrivals if a.key == 1), "vtime": round(obs.vtime, 2)}
     return out
@@ -186,6 +188,9 @@ def strategy():
                "retry_backoff_ms": draw(st.sampled_from([10, 50])),
                "metadata_max_age_ms": draw(st.sampled_from([500, 5000])),
                "max_poll_records": draw(st.sampled_from([None, None, 1, 3]))}
+        if draw(st.integers(0, 5)) == 0:
+            m = draw(st.sampled_from([2, 3, 5, 7]))
+            cfg["deser_fail"] = {"mod": m, "rem": draw(st.integers(0, m - 1))}
         if cfg["request_timeout_ms"] <= cfg["fetch_max_wait_ms"]:
             # every idle long-poll would "time out" and tear its connection down (with the metadata request queued
             # behind it): not a configuration a Kafka client is meant to run with (the Java client rejects it)
